@@ -80,7 +80,10 @@ type Quiescer struct {
 	Stalled  func() int64 // senders deliberately blocked inside the network (each pins one message queue); may be nil
 }
 
-var liveQueues, queueExits int64
+var liveQueues, queueExits, startingQueues int64
+
+// QueuesStarting returns the number of message queues whose run loop was spawned but has not begun to run.
+func QueuesStarting() int64 { return atomic.LoadInt64(&startingQueues) }
 
 // QueueExits returns how many message-queue run loops have exited so far in this process.
 func QueueExits() int64 { return atomic.LoadInt64(&queueExits) }
@@ -96,8 +99,14 @@ func init() {
 	verifhook.SetEventSink(func(point string, kv ...any) {
 		Tick()
 		switch point {
-		case "mq.run.enter":
+		case "mq.startup":
+			// counted from Startup(), not from the first instruction of the run loop: a goroutine that
+			// was spawned but has not run yet is invisible otherwise, and one left over from a finished
+			// execution would enter its busy section while the next execution takes its baseline
 			atomic.AddInt64(&liveQueues, 1)
+			atomic.AddInt64(&startingQueues, 1)
+		case "mq.run.enter":
+			atomic.AddInt64(&startingQueues, -1)
 		case "mq.run.exit":
 			atomic.AddInt64(&liveQueues, -1)
 			atomic.AddInt64(&queueExits, 1)
@@ -130,6 +139,9 @@ func AwaitTeardown(d time.Duration) bool {
 func (q *Quiescer) idleOnce() (bool, string) {
 	// Stalled reports senders that are deliberately blocked inside the network: each one pins one
 	// message queue in sendMessage (busy +1) and that queue may keep queued messages.
+	if n := QueuesStarting(); n > 0 {
+		return false, fmt.Sprintf("%d message queue run loop(s) spawned but not running yet", n)
+	}
 	excused := int64(0)
 	if q.Stalled != nil {
 		excused = q.Stalled()
